@@ -23,7 +23,9 @@ A   == Ev.args
 
 IsEv(op) == l <= Len(Log) /\ Ev.op = op /\ l' = l + 1
 \* the decision and the handle the library produced are the ones the specification predicts
-Matches == last'.res = Ev.res /\ (Ev.res = "Ok" => last'.out = Ev.out)
+Matches == /\ last'.res = Ev.res /\ (Ev.res = "Ok" => last'.out = Ev.out)
+           \* events derived from the repository's fixtures also carry the vector's own verdict
+           /\ ("fixture" \in DOMAIN Ev.obs => Ev.obs.fixture = TRUE)
 
 TReset == /\ IsEv("Reset")
           /\ keys' = {} /\ objs' = << >> /\ last' = Rec("Reset", [x |-> 0], "Ok", "Ok", 0)
